@@ -397,6 +397,13 @@ def f13(ctx, rid):
     ctx.ok(rid, 'scan', '', '%d per-operation registrations in shared collections, %d not released on an error exit' % (n, bad), nontrivial=False, queries=max(1, n))
 
 
+def f14(ctx, rid):
+    """C05.V9 instances: the configured data-validation flag reaches the blob config of every blob opened at start-up - a failed
+    (half-written) overwrite in any blob, not only the newest, is found by the audit and the blob is quarantined"""
+    import props.c05 as c05
+    c05.v9(ctx, rid)
+
+
 RULES = [
     Rule('C11.X3', 'no err-exit is reachable between a move-out of shared state and its hand-back', x3, 4),
     Rule('C11.L1', 'an error while handling a worker message never ends the maintenance loop (C13.L1 instances)', l1, 4),
@@ -410,5 +417,6 @@ RULES = [
     Rule('C11.F11', 'blob ids in use in the work dir or the quarantine dir are never handed out again (C07.H6 instances)', f11, 3),
     Rule('C11.F12', 'an index is dumped with the same notion of blob size it is later loaded and validated against', f12, 2),
     Rule('C11.F13', 'a per-operation registration in a shared collection is removed on every exit, error exits included', f13, 1),
+    Rule('C11.F14', 'the configured data-validation flag reaches every blob opened at start-up (C05.V9 instances)', f14, 3),
     Rule('C11.F6', 'an index file cut short by a failed dump is never trusted: written flag set in a second phase, extent checked at open (C03.I8/I5 instances)', f6, 2),
 ]
